@@ -17,7 +17,7 @@ use std::panic::{catch_unwind, AssertUnwindSafe};
 pub const PROP: PropDef = PropDef {
     id: "C01",
     parts,
-    rule: "seed exchanges = key set (latest + every subset of 2 historical keys) x key used (every id of the set) x 2 id assignments (incl. 1 and 2^64-1) x request body {empty, {}, 300-byte JSON, one non-UTF-8 byte} x response body {empty, small JSON, 300 bytes} x nonce {00.., ff.., 00..1f}; for each seed: 6 accepted encodings, every single-bit flip of response body, retained request body, nonce, DER signature, request hash and key id, ~60 structural mutants (truncations, swaps, re-signing with other keys, recomposed digests, quote variants, ETag of a sibling exchange); totality: every string over {W,/,\",:,0,a,G,space} up to length 6/7 and every single-byte substitution of a valid ETag; non-trivial = mutant reaches signature verification or parsing (all mutants are distinct inputs by construction)",
+    rule: "seed exchanges = key set (latest + every subset of 2 historical keys) x key used (every id of the set) x 2 id assignments (incl. 1 and 2^64-1) x request body {empty, {}, 300-byte JSON, one non-UTF-8 byte} x response body {empty, small JSON, 300 bytes} x nonce {00.., ff.., 00..1f}; for each seed: 6 accepted encodings, every single-bit flip of response body, retained request body, nonce, DER signature, request hash and key id, ~1050 structural mutants (truncations, swaps, every pair of hash bytes swapped / flipped in the same bit, reversal, rotation, re-signing with other keys, recomposed digests, quote variants, ETag of a sibling exchange); totality: every string over {W,/,\",:,0,a,G,space} up to length 6/7 and every single-byte substitution of a valid ETag; non-trivial = mutant reaches signature verification or parsing (all mutants are distinct inputs by construction)",
     assumptions: &["the ECDSA twin (r, n-s) of a genuine signature is also a valid signature of the same key and is not in the must-reject list", "P-256/SHA-256 implementations (p256, sha2 crates) are trusted"],
 };
 
@@ -253,6 +253,35 @@ fn run_seed(ctx: &RunCtx, tier: Tier) -> RunOut {
     if !s.req.is_empty() {
         muts.push(("hash of the empty string".into(), format!("{sig_hex}:{}", hex::encode(Sha256::digest(b"")))));
     }
+    // coordinated changes of the hash that keep its length and its multiset / XOR / sum of bytes:
+    // every pair of unequal bytes swapped, the same bit flipped in two bytes, reversal, rotation
+    {
+        let hb: Vec<u8> = hex::decode(&hash_hex).unwrap();
+        for i in 0..hb.len() {
+            for j in i + 1..hb.len() {
+                if hb[i] != hb[j] {
+                    let mut m = hb.clone();
+                    m.swap(i, j);
+                    muts.push((format!("hash bytes {i} and {j} swapped"), format!("{sig_hex}:{}", hex::encode(&m))));
+                }
+                let bit = 1u8 << ((i + j) % 8);
+                let mut m = hb.clone();
+                m[i] ^= bit;
+                m[j] ^= bit;
+                muts.push((format!("the same bit flipped in hash bytes {i} and {j}"), format!("{sig_hex}:{}", hex::encode(&m))));
+            }
+        }
+        let mut r = hb.clone();
+        r.reverse();
+        if r != hb {
+            muts.push(("hash bytes reversed".into(), format!("{sig_hex}:{}", hex::encode(&r))));
+        }
+        let mut r = hb.clone();
+        r.rotate_left(1);
+        if r != hb {
+            muts.push(("hash bytes rotated".into(), format!("{sig_hex}:{}", hex::encode(&r))));
+        }
+    }
     muts.push(("first 16 bytes of the hash only".into(), format!("{sig_hex}:{}", &hash_hex[..32])));
     muts.push(("hash followed by 00".into(), format!("{sig_hex}:{hash_hex}00")));
     muts.push(("empty hash".into(), format!("{sig_hex}:")));
@@ -469,7 +498,7 @@ fn parts(tier: Tier) -> Vec<PartDef> {
             "seed-exchanges",
             cfg,
             json!({"key_sets": "latest + every subset of 2 historical", "id_assignments": [[42, 7, "2^64-1"], ["2^64-1", 1, 123456789]], "request_bodies": 4, "response_bodies": tier.pick(2, 3), "nonces": 3,
-                   "per_seed": "6 positives, all single-bit flips (response, request, nonce, key id, signature, hash), ~55 + 2*len(ETag) structural mutants, all single-byte substitutions of the ETag (quick: at the ends and around the colon)",
+                   "per_seed": "6 positives, all single-bit flips (response, request, nonce, key id, signature, hash), ~1050 + 2*len(ETag) structural mutants (incl. every coordinated two-byte change of the hash), all single-byte substitutions of the ETag (quick: at the ends and around the colon)",
                    "exploration": tier.pick("all seeds within 2 departures from the default seed", "all seeds (full product)")}),
             move |ctx| run_seed(ctx, tier),
         ),
